@@ -86,17 +86,6 @@ def cls3bits : Bytes := [97, 113, 105, 121, 101, 109, 117, 52]             -- aq
 def cls2bits : Bytes := [97, 113, 105, 121]                                -- aqiy
 def cls1bits : Bytes := [97, 113]                                          -- aq
 
-/-- The last character of a base32 string of length `L % 8 = m` must lie in this class
-(`BASE32STR_anybytes`: 1 byte -> 2 chars, 2 -> 4, 3 -> 5, 4 -> 7). `none` = impossible length. -/
-def tailClass (m : Nat) : Option Bytes :=
-  match m with
-  | 0 => some clsB32
-  | 2 => some cls3bits
-  | 4 => some cls1bits
-  | 5 => some cls4bits
-  | 7 => some cls2bits
-  | _ => none
-
 /-! ### decimal numbers -/
 
 def isDigit (c : UInt8) : Bool := 48 ≤ c && c ≤ 57
@@ -139,10 +128,19 @@ def splitB32 (n : Nat) (last : Bytes) (s : Bytes) : Option (Bytes × Bytes) :=
   if g.length == n + 1 && (g.take n).all isB32 && last.contains (g.getLastD 0) then some (g, s.drop (n + 1))
   else none
 
-def litBodyOk (g : Bytes) : Bool :=
-  match tailClass (g.length % 8) with
-  | some cls => g == [] || cls.contains (g.getLastD 0)
-  | none => false
+/-- `BASE32STR_anybytes` = `((?:B{8})*(?:|B[aqiyemu4]|B{3}[aq]|B{4}[aqiyemu4cgkosw26]|B{6}[aqiy]))` on a maximal
+base32 run `g`: blocks of 8 while at least 8 characters remain (a run of length L can only be split
+as L / 8 blocks and a tail of L % 8 < 8 characters), then one of the five tails. -/
+def litBodyOk : Bytes → Bool
+  | c1 :: c2 :: c3 :: c4 :: c5 :: c6 :: c7 :: c8 :: rest =>
+    isB32 c1 && isB32 c2 && isB32 c3 && isB32 c4 && isB32 c5 && isB32 c6 && isB32 c7 && isB32 c8 && litBodyOk rest
+  | [c1, c2, c3, c4, c5, c6, c7] =>
+    isB32 c1 && isB32 c2 && isB32 c3 && isB32 c4 && isB32 c5 && isB32 c6 && cls2bits.contains c7
+  | [c1, c2, c3, c4, c5] => isB32 c1 && isB32 c2 && isB32 c3 && isB32 c4 && cls4bits.contains c5
+  | [c1, c2, c3, c4] => isB32 c1 && isB32 c2 && isB32 c3 && cls1bits.contains c4
+  | [c1, c2] => isB32 c1 && cls3bits.contains c2
+  | [] => true
+  | _ => false
 
 /-- Deterministic matcher; returns the capture groups (base32 and number groups only). -/
 def matchPieces : List Piece → Bytes → Option (List Bytes)
